@@ -221,6 +221,16 @@ _WORK_MODULE = None  # type: Any
 _WORKER_TMP = None  # type: Optional[str]
 
 
+def scratch_root() -> str:
+    """Directory for scratch files: RAM-backed when available (removed after the run)."""
+    override = os.environ.get("VERIF_SCRATCH")
+    if override:
+        return override
+    if os.path.isdir("/dev/shm") and os.access("/dev/shm", os.W_OK):
+        return "/dev/shm"
+    return tempfile.gettempdir()
+
+
 def _worker_init(module_name: str, base_tmp: str) -> None:
     global _WORK_MODULE, _WORKER_TMP
     _WORK_MODULE = importlib.import_module(module_name)
@@ -257,7 +267,7 @@ def _worker_run(indexed_shard: Tuple[int, Any]) -> Tuple[int, Result]:
 def run_shards(module_name: str, shards: Sequence[Any], seed: int) -> Result:
     """Run all the shards (every one of them; the seed only rotates the order)."""
     global _WORKER_TMP
-    base_tmp = tempfile.mkdtemp(prefix="verif-")
+    base_tmp = tempfile.mkdtemp(prefix="verif-", dir=scratch_root())
     agg = Result()
     indexed = list(enumerate(shards))
     if indexed:
@@ -442,7 +452,7 @@ def main(argv: Optional[Sequence[str]] = None) -> int:
 
 def _replay(module: Any, property_id: str, path: pathlib.Path) -> int:
     payload = json.loads(path.read_text(encoding="utf-8"))
-    base_tmp = tempfile.mkdtemp(prefix="verif-replay-")
+    base_tmp = tempfile.mkdtemp(prefix="verif-replay-", dir=scratch_root())
     try:
         _worker_init(module.__name__, base_tmp)
         first = module.replay(payload["case"])
